@@ -129,15 +129,10 @@ Fixpoint run_pw_items (pw : pwf) (bl bh scale : Q) (items : list (xreal * Z * xr
 Definition pw_scale (pw : pwf) : Q := Qmaxabs (map (fun k : knot => fst (fst k)) pw).
 
 (* ---------- built-in discrete distributions ---------- *)
-(* exact cdf at the support points lo..hi *)
-Fixpoint cdf_table (cdf : Z -> Q) (k : Z) (cnt : nat) : list (Z * Q) :=
-  match cnt with O => [] | S c => (k, Qred (cdf k)) :: cdf_table cdf (k + 1) c end.
-(* smallest support point with cdf >= t (the last one when none: cdf hi = 1) *)
-Fixpoint first_ge (tab : list (Z * Q)) (t : Q) (dflt : Z) : Z :=
-  match tab with
-  | [] => dflt
-  | (k, c) :: r => if Qle_bool t c then k else first_ge r t k
-  end.
+(* exact cdf at the support points lo..hi: Model.InvCDF.disc_table; smallest support point with
+   cdf >= t: disc_quantile (Proofs: disc_quantile_spec) *)
+Definition cdf_table := disc_table.
+Definition first_ge := disc_quantile.
 
 Definition check_disc_y (tab : list (Z * Q)) (lo hi : Z) (y : xreal) (st : Z) (obs : xreal) : Z * option (list Z) :=
   match y with
